@@ -24,6 +24,7 @@ type crashStats struct {
 	contentChecks      int64
 	weakFiles          int64
 	sharedPoints       int64
+	capped             int32
 	filesOpenFailed    int64
 	filesResurrected   int64
 	failPattern        sync.Map // one-record file -> failing lengths relative to the record start
@@ -258,6 +259,10 @@ func (w *world) crashCheck() {
 	resurrected := map[string][]int{} // "[id:list!]" -> lengths
 	var firstErr, firstWrong string
 	for _, n := range cuts {
+		if time.Now().After(e.deadline) {
+			atomic.StoreInt32(&e.stats.capped, 1)
+			break
+		}
 		if dirty || curLen < n {
 			if err := os.WriteFile(tmp, data[:n], 0o644); err != nil {
 				mc.Fatal("c15: write scratch copy: %v", err)
